@@ -329,6 +329,29 @@ def check(rep, F, tier, replay=None):
                     if l_ != {p1_} or r_ != {p2_}:
                         what_ = "length" if any(c_[0] == "call" for c_ in H_.walk(x_[4])) else "key"
                         rep.violation("LV-order", "descending|%s" % what_, "the language-view comparator compares the %s with the operands swapped (%s against %s): keys of equal length come out in descending order, so a transaction using PlutusV2 and PlutusV3 together gets language views `{02:.., 01:..}` and a script-data hash the ledger does not derive" % (what_, sorted(l_), sorted(r_)), {})
+    # SIB-order: the hash and the emitted witness set walk the sub-builders in the same order
+    rep.rule("SIB-order", "TransactionBuilder::calc_script_data_hash (what is hashed) and TransactionBuilder::get_combined_plutus_scripts (what get_witness_set emits and fake_full_tx sizes) visit the witness sources of the builder - inputs, collateral, mint, certs, withdrawals, voting_procedures, voting_proposals - in the same order (order of first mention of self.<field> in the HIR): redeemers and first-seen datums are collected in visiting order, so a different order makes the emitted redeemers / datums differ from the bytes behind script_data_hash although every count, size and fee agrees")
+    SRC_ = ("inputs", "collateral", "mint", "certs", "withdrawals", "voting_procedures", "voting_proposals")
+
+    def order_(fid__):
+        out = []
+        for n__ in H.walk(F.hir[fid__]["body"]):
+            if n__[0] == "field":
+                p__ = H.path_str(n__)
+                if p__ and p__.startswith("self.") and p__.count(".") == 1 and p__.split(".")[1] in SRC_ and p__.split(".")[1] not in out:
+                    out.append(p__.split(".")[1])
+        return out
+    a__ = find_fn(rep, F, "TransactionBuilder::calc_script_data_hash")
+    b__ = find_fn(rep, F, "TransactionBuilder::get_combined_plutus_scripts")
+    if a__ and b__ and a__ in F.hir and b__ in F.hir:
+        oa, ob = order_(a__), order_(b__)
+        rep.inst("SIB-order")
+        if len(oa) < 5 or len(ob) < 5:
+            rep.lost("calc_script_data_hash / get_combined_plutus_scripts no longer mention the witness sources directly (%s / %s)" % (oa, ob))
+        else:
+            common_ = [x for x in oa if x in ob]
+            if common_ != [x for x in ob if x in oa] or set(oa) != set(ob):
+                rep.violation("SIB-order", "%s|%s" % (",".join(oa), ",".join(ob)), "calc_script_data_hash collects the Plutus witnesses in the order %s, get_combined_plutus_scripts (emitted witness set, size / fee estimate) in the order %s: with a Plutus mint next to a Plutus certificate or withdrawal the emitted redeemers (and first-seen datums) are ordered differently from the bytes that were hashed into script_data_hash" % (oa, ob), {})
     return rep.finish(
         EXPLANATION,
         ["PlutusWitnesses::collect de-duplicates with ordered sets (C18 DEDUP rule)", "language views encoding follows the ledger (not checked: a frozen byte fragment would be brittle)"],
